@@ -1,0 +1,8 @@
+//go:build verif
+
+// Contracts for the verification machinery in /verif (comment-only; compiled only with -tags verif).
+
+package cas
+
+//@ iface Client.Write
+//@ iface Client.Read
